@@ -33,7 +33,18 @@ type tlEntry struct {
 
 func genTime() time.Time {
 	var sec int64
-	switch dsim.Choose(5) {
+	switch dsim.Choose(6) {
+	case 5:
+		// far from the epoch: outside the range a count of nanoseconds can hold (years 1..1677, 2262..9999)
+		if dsim.Choose(2) == 0 {
+			sec = -9_300_000_000 - int64(genUint(35))%52_800_000_000
+		} else {
+			sec = 9_300_000_000 + int64(genUint(38))%244_000_000_000
+		}
+		if dsim.Choose(6) == 0 {
+			sec = time.Time{}.Unix() // an entry whose Time was never set
+		}
+		count("cov:time-beyond-int64-nanoseconds")
 	case 0:
 		sec = 1_700_000_000 + int64(dsim.Choose(100000))
 	case 1:
@@ -378,7 +389,7 @@ func init() {
 			}
 			return false
 		},
-		ProbeUniverse: []string{"fault:crash-cut", "fault:disk-write-error", "fault:unencodable-entry"},
+		ProbeUniverse: []string{"fault:crash-cut", "fault:disk-write-error", "fault:unencodable-entry", "cov:time-beyond-int64-nanoseconds"},
 		Real:          []string{"pkg/tlog (Writer, Reader)", "pkg/frame", "pkg/dialect", "pkg/message"},
 		Stub:          []string{"disk (append-only file with short/failed writes, crash = byte-prefix)", "reference file format as oracle"},
 	})
